@@ -154,7 +154,9 @@ def parse_sections(text: str) -> SectionConfig:
         # Check for variable declaration
         var_match = VARIABLE_DECL.match(line.strip())
         if var_match:
-            var_name = var_match.group(1)
+            # Names are case-insensitive at use (the evaluator lower-cases identifiers),
+            # so store them lower-cased: `Big = ...` is reachable as Big / big / BIG.
+            var_name = var_match.group(1).lower()
             var_expr = var_match.group(2).strip()
 
             # Validate the expression
